@@ -5,6 +5,14 @@ import z3
 from .core import *
 
 
+def boolword_cond(ex, c):
+    """word used as a truth value -> z3 Bool, without going through (ite ... 1 0) != 0"""
+    b = ex._as_boolword(c)
+    if b is not None:
+        return b
+    return c != 0
+
+
 def install(ex):
     B = ex.builtins
 
@@ -192,6 +200,8 @@ def install(ex):
         idx = st.nsym
         st.nsym += 1
         full = '%s#%d' % (name, idx)
+        if lo > -(1 << 63) or hi < (1 << 63) - 1:
+            full += '@%d:%d' % (lo, hi)
         if ex.replay_values is not None:
             if idx >= len(ex.replay_values):
                 v = lo & M64
@@ -228,13 +238,13 @@ def install(ex):
             return
         if c is UNDEF:
             ex.violation('mem', 'uninit-use', 'assume on uninitialised value')
-        cond = c if isinstance(c, BoolRef) else (c != 0)
-        cond = z3.simplify(cond)
-        if z3.is_true(cond):
+        cond = c if isinstance(c, BoolRef) else boolword_cond(ex, c)
+        cs = z3.simplify(cond)
+        if z3.is_true(cs):
             return
-        if z3.is_false(cond):
+        if z3.is_false(cs):
             raise PathEnd('assume')
-        kn = ex.st.known.get(cond.get_id())
+        kn = ex.st.known.get(cs.get_id())
         if kn is not None:
             if kn[0]:
                 return
@@ -242,13 +252,13 @@ def install(ex):
         m = ex.st.model
         if m is not None and z3.is_true(m.eval(cond, model_completion=True)):
             ex.st.pc.append(cond)
-            ex.learn(cond)
+            ex.learn(cs)
             return
         sat, m = ex.query(cond, 'branch')
         if not sat:
             raise PathEnd('assume')
         ex.st.pc.append(cond)
-        ex.learn(cond)
+        ex.learn(cs)
         ex.st.model = m
 
     @reg('sx_assert')
@@ -264,28 +274,29 @@ def install(ex):
             return
         if c is UNDEF:
             ex.violation('mem', 'uninit-use', 'oracle on uninitialised value: ' + ex.cstr(a[1]))
-        cond = c if isinstance(c, BoolRef) else (c != 0)
-        cond = z3.simplify(cond)
-        if z3.is_true(cond):
-            ex.stats.oracle_concrete += 1
-            return
-        ex.stats.oracle_solver += 1
-        if ex.replay_values is not None:
-            raise MachineryError('symbolic oracle during concrete replay')
+        cond = c if isinstance(c, BoolRef) else boolword_cond(ex, c)
         conj = cond.children() if z3.is_and(cond) else [cond]
-        rest = []
+        first = True
         for cj in conj:
-            kn = st.known.get(cj.get_id())
+            cs = z3.simplify(cj)
+            if z3.is_true(cs):
+                continue
+            if first:
+                ex.stats.oracle_solver += 1
+                first = False
+                if ex.replay_values is not None:
+                    raise MachineryError('symbolic oracle during concrete replay')
+            kn = st.known.get(cs.get_id())
             if kn is not None and kn[0]:
                 ex.stats.known_hits += 1
                 continue
-            rest.append(cj)
-        for cj in rest:
             sat, m = ex.query(z3.Not(cj), 'assert')
             if sat:
                 oid = ex.cstr(a[1])
                 ex.violation('assert', oid, 'oracle %s violated' % oid, model=m)
-            ex.learn(cj)
+            ex.learn(cs)
+        if first:
+            ex.stats.oracle_concrete += 1
         # holds on every value of this path: nothing to add
 
     @reg('sx_fail')
